@@ -7,6 +7,7 @@ mod gen_io;
 mod model;
 mod monitor;
 mod prng;
+mod raw;
 mod runner;
 mod shrink;
 mod structure;
@@ -177,6 +178,7 @@ fn cmd_witnesses() -> i32 {
             scenario_index: 0,
             case: w.case.clone(),
             texts,
+            raw: None,
         };
         let path = format!("{}/{}.json", dir, w.name);
         std::fs::write(&path, serde_json::to_string_pretty(&rep).unwrap()).unwrap();
